@@ -43,7 +43,10 @@ pub fn crash(depth: usize) -> Value {
         // learn the length of the record
         let (_, l0, l1) = match h::sql_session_crash(block, &base, stmt, usize::MAX, &[], &[]) { Ok(x) => x, Err(e) => return json!({"found": true, "tried": tried, "input": {"before": base, "interrupted": stmt}, "observed": format!("session failed: {e}")}) };
         let delta = (l1 - l0) as usize;
-        let stride = match depth { 0 | 1 => (delta / 12).max(1), 2 => (delta / 60).max(1), _ => 1 };
+        // records with several entries (a DELETE over two RowSets, a DROP of a table with data) are cut at EVERY byte at every
+        // depth: the positions between two entries are the ones where an unfinished transaction looks like a clean log
+        let multi_entry = stmt.starts_with("delete from t where k >= 3") || stmt.starts_with("drop table");
+        let stride = if multi_entry { 1 } else { match depth { 0 | 1 => (delta / 12).max(1), 2 => (delta / 60).max(1), _ => 1 } };
         let mut cuts: Vec<usize> = (0..=delta).step_by(stride).collect();
         for c in [1usize, 2, delta.saturating_sub(1), delta.saturating_sub(2), delta] { if !cuts.contains(&c) && c <= delta { cuts.push(c); } }
         for cut in cuts {
